@@ -796,6 +796,12 @@ fn render_toml(file: &[(String, String)], form: &str, style: &str) -> String {
     if style == "tight" {
         out = out.replace('\n', "\r\n");
     }
+    // "no_final_newline": the plain rendering without a line terminator after the last line (editors differ)
+    if style == "no_final_newline" {
+        while out.ends_with('\n') {
+            out.pop();
+        }
+    }
     out
 }
 
